@@ -24,15 +24,16 @@ var ErrFault = errors.New("verif injected storage fault")
 
 // Controller counts statements and decides which one fails
 type Controller struct {
-	mu       sync.Mutex
-	armed    bool
-	count    int      // statements seen since arming
-	failAt   int      // 1-based index of the statement to fail (0 = none)
-	fired    bool
-	log      []string // statements seen since arming (kind + first words)
-	keepLog  bool
-	onlyInTx bool // count only statements issued inside an explicit transaction (and its commit)
-	delay    func(kind, query string)
+	mu         sync.Mutex
+	armed      bool
+	count      int // statements seen since arming
+	failAt     int // 1-based index of the statement to fail (0 = none)
+	fired      bool
+	log        []string // statements seen since arming (kind + first words)
+	keepLog    bool
+	onlyInTx   bool // count only statements issued inside an explicit transaction (and its commit)
+	failCommit bool // fail the next commit (whatever its index)
+	delay      func(kind, query string)
 }
 
 var controllers sync.Map // name -> *Controller
@@ -44,6 +45,13 @@ func (c *Controller) Arm(failAt int, keepLog bool) {
 	c.mu.Unlock()
 }
 
+// ArmCommit makes the next COMMIT fail (the transaction is rolled back), whatever its index
+func (c *Controller) ArmCommit() {
+	c.mu.Lock()
+	c.armed, c.count, c.failAt, c.fired, c.log, c.keepLog, c.failCommit = true, 0, 0, false, nil, false, true
+	c.mu.Unlock()
+}
+
 // OnlyInTx restricts counting to statements inside explicit transactions
 func (c *Controller) OnlyInTx(b bool) { c.mu.Lock(); c.onlyInTx = b; c.mu.Unlock() }
 
@@ -52,6 +60,7 @@ func (c *Controller) Disarm() (int, bool, []string) {
 	c.mu.Lock()
 	defer c.mu.Unlock()
 	c.armed = false
+	c.failCommit = false
 	return c.count, c.fired, c.log
 }
 
@@ -82,6 +91,10 @@ func (c *Controller) step(kind, query string, inTx bool) bool {
 		c.log = append(c.log, kind+" "+short(query))
 	}
 	fail := c.failAt != 0 && c.count == c.failAt
+	if c.failCommit && kind == "commit" {
+		fail = true
+		c.failCommit = false
+	}
 	if fail {
 		c.fired = true
 	}
